@@ -351,7 +351,10 @@ def run(ctx):
     for i in range(6 if quick else 150):
         # large inputs: several hundred pi-atoms in one call (many small rings, connected or not) with one to three
         # odd-ring systems somewhere among them - first, in the middle, last
-        parts = [standard_system(rng, nrings=rng.choice([1, 1, 2]), sizes=(6,), chords=0) for _ in range(rng.randint(40, 70))]
+        if rng.random() < 0.5:
+            parts = [standard_system(rng, nrings=rng.choice([1, 1, 2]), sizes=(6,), chords=0) for _ in range(rng.randint(40, 70))]
+        else:
+            parts = [benzenoid_system(rng, rng.choice([1, 1, 2, 3]), hetero=0.1) for _ in range(rng.randint(40, 70))]     # all Kekulean
         for _ in range(rng.choice([1, 2, 3])):
             odd = standard_system(rng, nrings=rng.choice([3, 4, 6]), sizes=rng.choice([(5, 6, 6, 7), (5, 6, 6), (5, 7)]), chords=0)
             parts.insert(rng.choice([0, len(parts), rng.randrange(len(parts) + 1)]), odd)
@@ -364,7 +367,7 @@ def run(ctx):
         ctx.count("large.pi_atoms>256", 1 if len(pi_set(kind_of)[0]) > 256 else 0)
     for i in range(1 if quick else 12):
         # scale: more than a thousand pi-atoms in one call
-        parts = [standard_system(rng, nrings=1, sizes=(6,), chords=0) for _ in range(rng.randint(175, 260))]
+        parts = [benzenoid_system(rng, rng.choice([1, 1, 2]), hetero=0.1) for _ in range(rng.randint(190, 280))]      # each has a Kekule structure
         parts.insert(rng.randrange(len(parts)), standard_system(rng, nrings=rng.choice([2, 4]), sizes=(5, 6, 6, 7), chords=0))
         m, kind_of, ae = union(parts)
         A.group(m, kind_of, ae, "standard", 2, "G6-huge")
